@@ -596,6 +596,36 @@ public:
         O["body"] = nullptr;
       return newNode(S, std::move(O));
     }
+    if (auto *LE = dyn_cast<LambdaExpr>(S)) {
+      // a closure: the call operator is emitted as a function of its own (after the enclosing one); references inside its
+      // body to captured variables keep the declaration ids of the enclosing function
+      // It is represented as a call of that function without arguments (flag "lambda"): every summary that follows calls
+      // (effects, exception summaries, collectives) then accounts for the body once, at the place where the closure is made.
+      O["k"] = "call";
+      O["ck"] = "func";
+      O["cname"] = "(lambda)";
+      O["args"] = json::Array();
+      O["lambda"] = true;
+      const CXXMethodDecl *CO = LE->getCallOperator();
+      if (CO && !CO->isDependentContext() && CO->doesThisDeclarationHaveABody()) {
+        O["cm"] = mangled(CO);
+        O["qn"] = qname(CO);
+        PendingLambdas.push_back(CO);
+      }
+      json::Array Cs;
+      for (const LambdaCapture &C : LE->captures()) {
+        json::Object Co;
+        if (C.capturesThis()) Co["this"] = true;
+        else if (C.capturesVariable()) {
+          Co["d"] = declId(C.getCapturedVar());
+          Co["n"] = C.getCapturedVar()->getNameAsString();
+        }
+        Co["byref"] = C.getCaptureKind() == LCK_ByRef;
+        Cs.push_back(std::move(Co));
+      }
+      O["captures"] = std::move(Cs);
+      return newNode(S, std::move(O));
+    }
     // ---- unknown: keep class name and children so that Python can refuse
     O["k"] = std::string("Other:") + S->getStmtClassName();
     O["children"] = emitList(S->children());
@@ -718,7 +748,15 @@ public:
     F["nodes"] = std::move(Nodes);
     Nodes = json::Array();
     Sh.functions.push_back(std::move(F));
+    // closures met in this body
+    while (!PendingLambdas.empty()) {
+      const FunctionDecl *L = PendingLambdas.back();
+      PendingLambdas.pop_back();
+      if (EmittedLambdas.insert(L).second) emitFunction(L);
+    }
   }
+  std::vector<const FunctionDecl *> PendingLambdas;
+  std::set<const FunctionDecl *> EmittedLambdas;
 
   void emitRecord(const CXXRecordDecl *RD) {
     std::string q = qname(RD);
